@@ -1,6 +1,6 @@
 //! C04 — pattern search finds the same first / last occurrence as std.
 //! Reference = naive first/last occurrence (`hlib::ref_find/ref_rfind`), which is
-//! what `str::find`/`rfind` compute; tied to the real std in `c04_spec_vs_std`.
+//! what `str::find`/`rfind` compute; tied to the real std in `c04_spec_find_vs_std` / `c04_spec_rfind_vs_std`.
 use crate::hlib::*;
 use konst::{slice, string};
 
@@ -288,16 +288,32 @@ harness! {
 }
 
 harness! {
-    /// kind=bounded tier=thorough bound="spec adequacy: ref_find/ref_rfind vs str::find/rfind with char patterns, string<=6 bytes"
-    #[kani::unwind(27)]
-    fn c04_spec_vs_std(s) {
-        let hs = BStr::<6>::any(s);
+    /// kind=bounded tier=thorough bound="spec adequacy: ref_find vs the real str::find with a char-equality closure pattern (std's memchr-based char searcher is too heavy for CBMC), every valid string <= 5 bytes, every char"
+    #[kani::unwind(24)]
+    fn c04_spec_find_vs_std(s) {
+        let hs = BStr::<5>::any(s);
         let c = s.char();
         let h = hs.as_str();
         let mut tmp = [0u8; 4];
         let p: &str = c.encode_utf8(&mut tmp);
-        chk!(s, h.find(c) == ref_find(h.as_bytes(), p.as_bytes()), "SPEC.ref_find.eq_std_find_char");
-        chk!(s, h.rfind(c) == ref_rfind(h.as_bytes(), p.as_bytes()), "SPEC.ref_rfind.eq_std_rfind_char");
+        let r = h.find(|x: char| x == c);
+        chk!(s, r == ref_find(h.as_bytes(), p.as_bytes()), "SPEC.ref_find.eq_std_find_char");
+        cov!(s, matches!(r, Some(i) if i > 0) && p.len() > 1, "SPEC.cover.find_multibyte_char_not_at_start");
+    }
+}
+
+harness! {
+    /// kind=bounded tier=thorough bound="spec adequacy: ref_rfind vs the real str::rfind with a char-equality closure pattern, every valid string <= 5 bytes, every char"
+    #[kani::unwind(24)]
+    fn c04_spec_rfind_vs_std(s) {
+        let hs = BStr::<5>::any(s);
+        let c = s.char();
+        let h = hs.as_str();
+        let mut tmp = [0u8; 4];
+        let p: &str = c.encode_utf8(&mut tmp);
+        let r = h.rfind(|x: char| x == c);
+        chk!(s, r == ref_rfind(h.as_bytes(), p.as_bytes()), "SPEC.ref_rfind.eq_std_rfind_char");
+        cov!(s, matches!(r, Some(i) if i > 0) && p.len() > 1, "SPEC.cover.rfind_multibyte_char_not_at_start");
     }
 }
 
